@@ -44,11 +44,12 @@ def run(ctx):
     f = facts.one(r"rust_log_ref_finder::find$")
     if ctx.check(f is not None, "C09-c", "anchor|find", "the Rust finder found", ""):
         prov = Prov(f)
+        from .finder import entry_args
+        ea = entry_args(facts, f) or {}
         for name in ("insertion_prefix", "insertion_suffix"):
-            ls = f.locals_named(name)
-            if not ctx.check(len(ls) == 1, "C09-c", "anchor|" + name, "`%s` variable found" % name, f.where()):
+            if not ctx.check(name in ea, "C09-c", "anchor|" + name, "the `%s` argument of the entry's construction found" % name, f.where()):
                 continue
-            org = prov.origins(ls[0])
+            org = prov.origins_op(ea[name])
             src = [o for o in org if o == ("param", 1)]
             calls = sorted({o[1].name.split("::")[-1] for o in org if o[0] == "call"})
             consts = sorted({dict(o[1]).get("str") for o in org if o[0] == "const" and dict(o[1]).get("str") is not None})
